@@ -178,3 +178,213 @@ void h_wake_popif(void) {
 }
 #endif
 #endif
+
+#ifdef LANE
+/* ---- micro_queue: one lane.  push / prepare_page / spin_wait_until_my_turn / pop / assign_and_destroy_item / micro_queue_pop_finalizer ----------------
+   Rely/guarantee proof of ONE call (the push or the pop of an arbitrary ticket: page g_pg of the lane, slot g_idx, any of the six page-size classes) against
+   any number of other pushes and pops of the same lane (every other ticket; tickets are unique: claim.* jobs).  Shared state: tail_counter, head_counter,
+   head_page, tail_page, page_mutex, the pages.  Pages are named by their page number (ghost); g_linked / g_unlinked count the pages ever appended to / removed
+   from the list.  The window holds the two pages this call can reach: PREVO (page g_pg-1) and CURO (page g_pg); every other page is an opaque token.
+   Every atomic operation, every lock / unlock is a step: the guarantee is checked for what this call did since the previous step, then the environment
+   runs (havoc constrained by INV and the rely).  The history the lane is compared with: gvalid[s] / gval[s] = whether the push of slot s of page g_pg
+   constructed an element, and which. */
+#include "ticket.inc"
+typedef unsigned long value_type;
+struct padded_page { struct padded_page *next; uintptr_t mask; value_type items[32]; };
+struct micro_queue { struct padded_page *head_page; ticket_type head_counter; struct padded_page *tail_page; ticket_type tail_counter; int page_mutex; };
+struct queue_rep { size_t n_invalid_entries; };
+struct finalizer { ticket_type my_ticket_type; struct micro_queue *my_queue; struct padded_page *my_page; int *allocator; };
+static size_type items_per_page;
+static struct micro_queue Q; static struct queue_rep BASE; static struct padded_page PREVO, CURO; static char tok_next_, tok_lo_, tok_hi_;
+#define TOK_NEXT ((struct padded_page *)&tok_next_)
+#define TOK_LO ((struct padded_page *)&tok_lo_)
+#define TOK_HI ((struct padded_page *)&tok_hi_)
+#define INVALID_PAGE ((struct padded_page *)(uintptr_t)1)
+enum { PUSH = 0, POP = 1 };
+static int g_role; static unsigned g_lg; static size_t g_pg, g_idx, g_s; static ticket_type K8; static size_t g_linked, g_unlinked;
+static bool gvalid[32]; static value_type gval[32];
+static bool g_seq;                      /* sequential scenario (no other thread): lane.pop.invalid_page */
+static bool g_fail_alloc;               /* the page allocation of this push throws */
+static bool me_adv, me_linked, me_unlinked, me_hold, me_private, me_destroyed, me_read_in_turn, cur_freed, g_exc;
+static unsigned n_adv, n_alloc, n_construct, n_free, n_destroy, n_lock, n_read; static long my_nie; static bool adv_bit; static value_type adv_item; static bool adv_in_turn;
+struct snap { ticket_type tc, hc; size_t linked, unlinked; struct padded_page *hp, *tp, *pn, *cn; int mutex; uintptr_t pm, cm; value_type ps, cs, ci; bool adv; };
+static struct snap S;
+#define TMAX ((size_t)1 << 50)
+#define GMAX ((size_t)1 << 44)
+#define T_ (Q.tail_counter >> 3)
+#define H_ (Q.head_counter >> 3)
+#define PAGEPTR(n) ((n) == g_pg ? &CURO : ((n) + 1 == g_pg ? &PREVO : ((n) == g_pg + 1 ? TOK_NEXT : ((n) < g_pg ? TOK_LO : TOK_HI))))
+#define U_(s) ((g_pg << g_lg) | (s))
+#define BIT_(s) ((CURO.mask >> (s)) & 1)
+#define LIVE_(n) (g_unlinked <= (n) && (n) < g_linked)
+/* counters: multiples of n_queue (no failed page allocation so far: assumption of these jobs), head never passes tail */
+#define INV_COUNTERS ((Q.tail_counter & 7) == 0 && (Q.head_counter & 7) == 0 && H_ <= T_ && T_ < TMAX && g_unlinked <= g_linked && g_linked < GMAX)
+/* page p is appended during turn p*ipp (slot 0) and removed during turn p*ipp+ipp-1 (last slot), which starts only after that slot was pushed */
+#define INV_BOUNDS ((g_linked << g_lg) >= T_ && (g_linked == 0 || ((g_linked - 1) << g_lg) <= T_) && (g_unlinked << g_lg) <= H_ + 1 && (g_unlinked << g_lg) <= T_ && ((g_unlinked + 1) << g_lg) > H_)
+/* what only this call can do has not happened unless this call did it (tickets are unique) */
+#define INV_ME ((g_role != PUSH || (me_adv ? Q.tail_counter > K8 : Q.tail_counter <= K8)) && (g_role != PUSH || g_idx != 0 || me_linked || g_linked <= g_pg) \
+             && (g_role != POP || (me_adv ? Q.head_counter > K8 : Q.head_counter <= K8)) && (g_role != POP || g_idx != items_per_page - 1 || me_unlinked || g_unlinked <= g_pg))
+/* what the two lock-free reads depend on, at every instant (also while somebody is inside a page_mutex section) */
+#define INV_READERS ((!(T_ > H_ && g_unlinked == (H_ >> g_lg)) || Q.head_page == PAGEPTR(H_ >> g_lg)) && ((T_ & (items_per_page - 1)) == 0 || Q.tail_page == PAGEPTR(T_ >> g_lg)))
+/* the list, whenever nobody is inside a page_mutex section */
+#define INV_LIST (Q.page_mutex != 0 || (Q.head_page == (g_unlinked < g_linked ? PAGEPTR(g_unlinked) : NULL) && Q.tail_page == (g_unlinked < g_linked ? PAGEPTR(g_linked - 1) : NULL) \
+             && (!(g_pg >= 1 && LIVE_(g_pg - 1)) || PREVO.next == (g_pg < g_linked ? &CURO : NULL)) && (!LIVE_(g_pg) || CURO.next == (g_pg + 1 < g_linked ? TOK_NEXT : NULL))))
+/* a cell of page g_pg: pushed (turn below tail): mask bit says whether an element was constructed, and the element is there until its pop's turn; not yet pushed: bit clear */
+#define CELL_(s) (!LIVE_(g_pg) || (U_(s) < T_ ? (BIT_(s) == (uintptr_t)gvalid[s] && (!gvalid[s] || !(U_(s) > H_ || (U_(s) == H_ && g_role == POP && (s) == g_idx && !me_destroyed)) || CURO.items[s] == gval[s])) \
+                                 : (U_(s) == T_ ? (BIT_(s) == 0 || gvalid[s]) : BIT_(s) == 0)))
+#define INV (INV_COUNTERS && INV_BOUNDS && INV_ME && INV_READERS && INV_LIST && CELL_(g_idx) && CELL_(g_s))
+#define SNAP_CUR (S.tc == Q.tail_counter && S.hc == Q.head_counter && S.linked == g_linked && S.unlinked == g_unlinked && S.hp == Q.head_page && S.tp == Q.tail_page && S.pn == PREVO.next && S.cn == CURO.next \
+             && S.mutex == Q.page_mutex && S.pm == PREVO.mask && S.cm == CURO.mask && S.ps == PREVO.items[g_s] && S.cs == CURO.items[g_s] && S.ci == CURO.items[g_idx] && S.adv == me_adv)
+static void capture(struct snap *s) {
+    s->tc = Q.tail_counter; s->hc = Q.head_counter; s->linked = g_linked; s->unlinked = g_unlinked; s->hp = Q.head_page; s->tp = Q.tail_page; s->pn = PREVO.next; s->cn = CURO.next;
+    s->mutex = Q.page_mutex; s->pm = PREVO.mask; s->cm = CURO.mask; s->ps = PREVO.items[g_s]; s->cs = CURO.items[g_s]; s->ci = CURO.items[g_idx]; s->adv = me_adv;
+}
+struct padded_page nondet_page(void);
+/* rely: what the other pushes and pops of the lane can do in any number of steps, given what this call holds */
+static bool rely(const struct snap *o) {
+    if (!(Q.tail_counter >= o->tc && Q.head_counter >= o->hc && g_linked >= o->linked && g_unlinked >= o->unlinked)) return false;         /* counters only grow */
+    if (me_hold && !(Q.page_mutex == 1 && Q.head_page == o->hp && Q.tail_page == o->tp && g_linked == o->linked && g_unlinked == o->unlinked && CURO.next == o->cn)) return false;   /* page_mutex */
+    if (me_hold && g_pg >= 1 && LIVE_(g_pg - 1) && PREVO.next != o->pn) return false;
+    if (!me_hold && Q.page_mutex == 1) return false;
+    /* the push whose turn it is owns the mask word and its cell until it hands the turn on */
+    if (g_role == PUSH && o->tc == K8 && !me_adv && o->unlinked <= g_pg && g_pg < o->linked && !(CURO.mask == o->cm && CURO.items[g_idx] == o->ci)) return false;
+    return true;
+}
+/* guarantee: what this call did since the previous step is something the rely of every other call allows */
+static void guarantee_check(void) {
+    __CPROVER_assert(INV_COUNTERS && INV_BOUNDS, "guarantee: the lane's counters stay multiples of n_queue with head <= tail, and the page list covers exactly the pages with a pushed or in-progress slot that are not yet consumed");
+    __CPROVER_assert(INV_ME, "guarantee: a counter is moved past a ticket only by the call that holds the ticket");
+    __CPROVER_assert(INV_READERS, "guarantee: head_page is the page of the oldest unconsumed ticket whenever a pop can read it without the lock, tail_page the page of the ticket being pushed whenever a push reads it without the lock");
+    __CPROVER_assert(INV_LIST, "guarantee: outside page_mutex sections head_page .. tail_page is the list of the linked, unconsumed pages in page order, null when there is none");
+    __CPROVER_assert(CELL_(g_idx) && CELL_(g_s), "guarantee: a pushed cell's mask bit tells whether an element was constructed and the element stays until its own pop; the bit of a cell not yet pushed is clear");
+    bool listsame = Q.head_page == S.hp && Q.tail_page == S.tp && PREVO.next == S.pn && (CURO.next == S.cn || me_private);
+    __CPROVER_assert(listsame || S.mutex == 1, "guarantee: head_page, tail_page and the next links are written only inside a page_mutex section");
+    __CPROVER_assert(PREVO.mask == S.pm && PREVO.items[g_s] == S.ps, "guarantee: the cells of another page are not touched");
+    if (g_role == PUSH) {
+        __CPROVER_assert(Q.head_counter == S.hc && g_unlinked == S.unlinked, "guarantee: a push never moves head_counter and never removes a page");
+        __CPROVER_assert(Q.tail_counter == S.tc || (S.tc == K8 && !S.adv && Q.tail_counter == K8 + n_queue && n_adv == 1), "guarantee: tail_counter is advanced only in the ticket's own turn, by exactly n_queue, once");
+        __CPROVER_assert(me_private || (((CURO.mask ^ S.cm) & ~((uintptr_t)1 << g_idx)) == 0 && (g_s == g_idx || CURO.items[g_s] == S.cs)), "guarantee: a push writes no cell and no mask bit but its own");
+        __CPROVER_assert(me_private || (CURO.mask == S.cm && CURO.items[g_idx] == S.ci) || (S.tc == K8 && !S.adv), "guarantee: a push writes its cell and its mask bit only during its own turn");
+    } else {
+        __CPROVER_assert(Q.tail_counter == S.tc && g_linked == S.linked, "guarantee: a pop never moves tail_counter and never appends a page");
+        __CPROVER_assert(Q.head_counter == S.hc || (S.hc == K8 && !S.adv && Q.tail_counter > K8 && Q.head_counter == K8 + n_queue && n_adv == 1), "guarantee: head_counter is advanced only in the ticket's own turn, after the push of the same ticket, by exactly n_queue, once");
+        __CPROVER_assert(CURO.mask == S.cm && (g_s == g_idx || CURO.items[g_s] == S.cs), "guarantee: a pop changes no mask bit and no cell but its own");
+        __CPROVER_assert(CURO.items[g_idx] == S.ci || (S.hc == K8 && !S.adv && S.tc > K8), "guarantee: a pop takes its cell only during its own turn");
+    }
+}
+static void env(void) {
+    if (g_seq) return;
+    struct snap o; capture(&o);
+    Q.tail_counter = nondet_size_t(); Q.head_counter = nondet_size_t(); Q.head_page = nondet_ptr(); Q.tail_page = nondet_ptr(); g_linked = nondet_size_t(); g_unlinked = nondet_size_t();
+    Q.page_mutex = me_hold ? 1 : (nondet_bool() ? 2 : 0); BASE.n_invalid_entries = nondet_size_t();
+    PREVO = nondet_page(); if (!me_private) CURO = nondet_page();
+    __CPROVER_assume(INV); __CPROVER_assume(rely(&o));
+}
+static void step(void) { guarantee_check(); env(); capture(&S); }
+static void lock_mutex(int *m) { guarantee_check(); env(); __CPROVER_assert(!me_hold, "C09.page: page_mutex is not taken twice by the same call"); __CPROVER_assume(*m == 0); *m = 1; me_hold = true; n_lock++; capture(&S); }
+static void unlock_mutex(int *m) {
+    step(); __CPROVER_assert(me_hold && *m == 1, "C09.page: only the holder releases page_mutex");
+    if (g_role == PUSH && !me_linked && !g_exc) { g_linked++; me_linked = true; me_private = false; }   /* ghost: the section appended this call's page */
+    *m = 0; me_hold = false; guarantee_check(); capture(&S);
+}
+#define LOCK_MUTEX(m) lock_mutex(&(m))
+#define UNLOCK_MUTEX(m) unlock_mutex(&(m))
+static void on_write(void *a, long d) {
+    if (a == (void *)&Q.tail_counter || a == (void *)&Q.head_counter) { n_adv++; me_adv = true; adv_bit = BIT_(g_idx) != 0; adv_item = CURO.items[g_idx];
+        adv_in_turn = (a == (void *)&Q.tail_counter ? Q.tail_counter : Q.head_counter) == K8; }
+    if (a == (void *)&BASE.n_invalid_entries) my_nie += d;
+}
+static void after_write(void *a) { if (a == (void *)&Q.head_page && g_role == POP && me_hold && !me_unlinked) { g_unlinked++; me_unlinked = true; } }   /* ghost: the section removed this call's page */
+#define ATOMIC_LOAD_AT(site, f) ({ step(); (f); })
+#define ATOMIC_STORE_AT(site, f, v) ({ __typeof__(f) v_ = (v); step(); on_write((void *)&(f), 0); (f) = v_; after_write((void *)&(f)); (void)0; })
+#define ATOMIC_FETCH_ADD_AT(site, f, v) ({ __typeof__(f) a_ = (v); step(); on_write((void *)&(f), 0); __typeof__(f) o_ = (f); (f) = o_ + a_; o_; })
+#define ATOMIC_PREINC_AT(site, f) ({ step(); on_write((void *)&(f), 1); ++(f); })
+#define ATOMIC_PREDEC_AT(site, f) ({ step(); on_write((void *)&(f), -1); --(f); })
+static struct padded_page *page_access(const struct padded_page *p) {
+    bool cur_ok = p == &CURO && !cur_freed && (me_private || LIVE_(g_pg) || (g_role == POP && me_unlinked));
+    bool prev_ok = p == &PREVO && g_pg >= 1 && LIVE_(g_pg - 1);
+    __CPROVER_assert(cur_ok || prev_ok, "C09.page: a page is touched only while it is certain to exist (linked and not yet retired, or still private to this call) - never a null, invalid, foreign or possibly freed page");
+    return p == &PREVO ? &PREVO : &CURO;
+}
+#define PAGE_NEXT(p) (page_access(p)->next)
+#define PAGE_MASK(p) (page_access(p)->mask)
+#define PAGE_ITEMS(p) (page_access(p)->items)
+#define ALLOC_REBIND(a, b) int a = 0; (void)(b)
+#define EXC_PENDING() (g_exc)
+#define EXC_THROW(x) (g_exc = true)
+#define EXC_RETHROW(r) return r
+#define EXC_PROPAGATE(...) do { if (g_exc) return __VA_ARGS__; } while (0)
+static struct padded_page *STUB_page_allocate(void) {
+    __CPROVER_assert(g_role == PUSH && g_idx == 0 && n_alloc == 0, "C09.page: a page is allocated exactly by the push that takes slot 0 of that page, once");
+    n_alloc++; if (g_fail_alloc) { g_exc = true; return NULL; }
+    CURO = nondet_page(); me_private = true; return &CURO;
+}
+static void STUB_page_construct(struct padded_page *p) { __CPROVER_assert(p == &CURO && me_private, "C09.page: the page constructed is the one just allocated"); CURO.next = NULL; CURO.mask = 0; }
+static void STUB_construct_item(value_type *loc, const value_type *args) {
+    n_construct++;
+    __CPROVER_assert(loc == &CURO.items[g_idx], "C09.cell: the element of ticket k is constructed in page (k / n_queue) / items_per_page of its lane, slot (k / n_queue) mod items_per_page");
+    __CPROVER_assert(Q.tail_counter == K8 && !me_adv && LIVE_(g_pg), "C09.turnstile: the element is constructed only during the ticket's own turn (tail_counter == k & -n_queue), in a page that is linked into the lane");
+    if (!gvalid[g_idx]) { g_exc = true; return; }     /* the element constructor throws */
+    CURO.items[g_idx] = *args;
+}
+static value_type *note_read(value_type *from) { n_read++; me_read_in_turn = Q.head_counter == K8 && !me_adv && Q.tail_counter > K8 && from == &CURO.items[g_idx]; return from; }
+#define MOVE_FROM(from) (*note_read(from))
+#define DESTROYER_CTOR(x) value_type *destroyer_my_value_ = (x)
+#define DESTROYER_DTOR(x) STUB_destroy_item(destroyer_my_value_)
+static void STUB_destroy_item(value_type *loc) { __CPROVER_assert(loc == &CURO.items[g_idx] && Q.head_counter == K8 && !me_adv, "C09.cell: the element destroyed is the one of the popped ticket, in the ticket's own turn"); n_destroy++; me_destroyed = true; *loc = nondet_ulong(); }
+static void STUB_page_destroy(struct padded_page *p) { }
+static void STUB_page_deallocate(struct padded_page *p) {
+    __CPROVER_assert(p == &CURO && g_role == POP && g_idx == items_per_page - 1 && me_unlinked && !cur_freed, "C09.page: a page is freed only by the pop of its last slot, after that pop removed it from the lane's list, once");
+    n_free++; cur_freed = true;
+}
+#define LANE_ASSIGNS Q, BASE, g_linked, g_unlinked, PREVO, CURO, S, my_nie, g_exc
+#define LOOP_turn_1 __CPROVER_assigns(LANE_ASSIGNS) __CPROVER_loop_invariant(INV && SNAP_CUR && !g_exc && my_nie == __CPROVER_loop_entry(my_nie))
+#define LOOP_swweq_1 __CPROVER_assigns(LANE_ASSIGNS, snapshot) __CPROVER_loop_invariant(INV && SNAP_CUR && snapshot == *location)
+#define LOOP_swueq_1 __CPROVER_assigns(LANE_ASSIGNS, snapshot) __CPROVER_loop_invariant(INV && SNAP_CUR && snapshot == *location)
+#include "lane.inc"
+size_t IN_lg, IN_pg, IN_idx, IN_lowbits;
+static ticket_type lane_init(int role) {
+    g_role = role; g_lg = nondet_unsigned(); __CPROVER_assume(g_lg <= 5); items_per_page = (size_type)1 << g_lg; IN_lg = g_lg;
+    OBLIGATION(items_per_page == items_per_page_of((size_t)1 << (7 - g_lg)), "C09.slot: the six page-size classes are items_per_page = 1, 2, 4, 8, 16, 32");
+    g_pg = IN_pg = nondet_size_t(); g_idx = IN_idx = nondet_size_t(); g_s = nondet_size_t(); __CPROVER_assume(g_pg < ((size_t)1 << 40) && g_idx < items_per_page && g_s < items_per_page);
+    K8 = ((g_pg << g_lg) | g_idx) << 3;
+    for (unsigned i = 0; i < 32; ++i) { gvalid[i] = nondet_bool(); gval[i] = nondet_ulong(); }
+    me_adv = me_linked = me_unlinked = me_hold = me_private = me_destroyed = me_read_in_turn = cur_freed = g_exc = false; n_adv = n_alloc = n_construct = n_free = n_destroy = n_lock = n_read = 0; my_nie = 0;
+    Q.tail_counter = nondet_size_t(); Q.head_counter = nondet_size_t(); Q.head_page = nondet_ptr(); Q.tail_page = nondet_ptr(); g_linked = nondet_size_t(); g_unlinked = nondet_size_t();
+    Q.page_mutex = nondet_bool() ? 2 : 0; BASE.n_invalid_entries = nondet_size_t(); PREVO = nondet_page(); CURO = nondet_page();
+    __CPROVER_assume(INV); capture(&S);
+    size_t r = IN_lowbits = nondet_size_t(); __CPROVER_assume(r < n_queue);
+    return K8 | r;      /* the global ticket: its low bits select the lane and are masked off by push / pop */
+}
+void h_lane_push(void) {
+    ticket_type k = lane_init(PUSH); g_fail_alloc = false; g_seq = false;
+    value_type v = gval[g_idx];
+    mq_push(&Q, k, &BASE, NULL, &v);
+    guarantee_check();
+    OBLIGATION(g_exc == !gvalid[g_idx], "C09.fault: push leaves by exception exactly if the element constructor threw");
+    OBLIGATION(n_construct == 1, "C09.cell: exactly one element construction per push");
+    OBLIGATION(n_adv == 1 && me_adv && adv_in_turn && Q.tail_counter >= K8 + n_queue, "C09.turnstile: a push hands the lane's turn on exactly once (tail_counter += n_queue, in its own turn) - also when the element constructor throws, so the lane is never blocked");
+    OBLIGATION(adv_bit == gvalid[g_idx], "C09.cell: when the turn is handed on the slot's mask bit is set exactly if the element was constructed (a throwing constructor leaves an invalid slot)");
+    OBLIGATION(!gvalid[g_idx] || adv_item == v, "C09.cell: when the turn is handed on the slot holds the pushed value");
+    OBLIGATION(my_nie == (gvalid[g_idx] ? 0 : 1), "C09.fault: a push whose constructor threw is counted as exactly one invalid entry, a successful push as none");
+    OBLIGATION((n_alloc == 1) == (g_idx == 0) && me_linked == (g_idx == 0) && !me_private, "C09.page: a new page is allocated and appended to the lane exactly when the ticket takes slot 0 of a page");
+    OBLIGATION(!me_hold && n_lock == (g_idx == 0 ? 1u : 0u), "C09.page: page_mutex is released; it is taken only to append a page");
+    VACUITY_END();
+}
+value_type IN_dst;
+void h_lane_pop(void) {
+    ticket_type k = lane_init(POP); g_fail_alloc = false; g_seq = false;
+    value_type dst = IN_dst = nondet_ulong(), dst0 = dst;
+    bool ok = mq_pop(&Q, &dst, k, &BASE, NULL);
+    guarantee_check();
+    OBLIGATION(ok == gvalid[g_idx], "C09.cell: pop of ticket k reports an item exactly if the push of ticket k constructed one (the mask bit of the same cell); an invalid slot is skipped");
+    OBLIGATION(!ok || dst == gval[g_idx], "C09.fifo: pop of ticket k delivers the value the push of ticket k stored - nothing lost, invented or taken from another ticket (per-lane ticket order)");
+    OBLIGATION(ok || dst == dst0, "C09.fifo: a skipped invalid slot delivers nothing");
+    OBLIGATION(n_destroy == (ok ? 1u : 0u) && n_read == (ok ? 1u : 0u) && (!ok || me_read_in_turn), "C09.turnstile: the element is moved out and destroyed exactly once, in the ticket's own turn and after the push of the same ticket finished; an invalid slot is not touched");
+    OBLIGATION(my_nie == (ok ? 0 : -1), "C09.fault: a skipped invalid slot is taken out of n_invalid_entries exactly once");
+    OBLIGATION(n_adv == 1 && me_adv && adv_in_turn && Q.head_counter >= K8 + n_queue, "C09.turnstile: a pop hands the lane's turn on exactly once (head_counter = k + n_queue, in its own turn)");
+    OBLIGATION((n_free == 1) == (g_idx == items_per_page - 1) && me_unlinked == (g_idx == items_per_page - 1), "C09.page: the page is removed from the lane and freed exactly by the pop of its last slot");
+    OBLIGATION(!me_hold && n_lock == (g_idx == items_per_page - 1 ? 1u : 0u), "C09.page: page_mutex is released; it is taken only to remove a page");
+    VACUITY_END();
+}
+#endif
